@@ -57,6 +57,9 @@ type Scenario struct {
 	ReadOnly bool  `json:"read_only,omitempty"`            // readOnlyBlockchain: the chain must not change
 	// EmptyDiffPct: percent of the source's blocks with an EMPTY state diff (default: the generator's 10)
 	EmptyDiffPct int `json:"empty_diff_pct,omitempty"`
+	// RichTxs: every block of the source carries exactly this many transactions, at least one event and
+	// at least one signature (so that every corruption kind finds something to corrupt)
+	RichTxs int `json:"rich_txs,omitempty"`
 }
 
 type outcome struct {
@@ -80,6 +83,9 @@ type outcome struct {
 	final       *blockchain.Blockchain
 	persisted   map[string]int
 	selfErr     string // the harness's own forged-block generator failed
+	handed      []handedOut
+	status      *statusTracker
+	fetchCalls  []*fetchCall
 }
 
 // buildChains manufactures every epoch's chain with juno itself.
@@ -106,7 +112,11 @@ func buildChains(sc Scenario) ([][]*lib.Bundle, error) {
 			}
 		}
 		for a := 0; a < e.Add; a++ {
-			if _, err := g.Next(nil); err != nil {
+			var spec *lib.BlockSpec
+			if sc.RichTxs > 0 {
+				spec = richSpec(g, sc.RichTxs)
+			}
+			if _, err := g.Next(spec); err != nil {
 				return nil, err
 			}
 		}
@@ -115,15 +125,77 @@ func buildChains(sc Scenario) ([][]*lib.Bundle, error) {
 	return out, nil
 }
 
+// richSpec: a block with n transactions (no legacy Deploy), at least one event and one signature;
+// with n >= 4 one transaction of each kind (invoke, declare, deploy-account, l1-handler).
+func richSpec(g *lib.ChainGen, n int) *lib.BlockSpec {
+	vs := g.Opt.Versions
+	if len(vs) > 2 {
+		vs = vs[len(vs)-2:]
+	}
+	version := lib.Pick(g.R, vs)
+	if h := g.Head(); h != nil && h.Block.ProtocolVersion > version {
+		version = h.Block.ProtocolVersion
+	}
+	kindOf := func(tx core.Transaction) int {
+		switch tx.(type) {
+		case *core.InvokeTransaction:
+			return 0
+		case *core.DeclareTransaction:
+			return 1
+		case *core.DeployAccountTransaction:
+			return 2
+		case *core.L1HandlerTransaction:
+			return 3
+		}
+		return -1
+	}
+	spec := &lib.BlockSpec{Version: version}
+	for try := 0; try < 200; try++ {
+		spec.Txs, spec.Rcs = nil, nil
+		events, sigs := 0, 0
+		have := map[int]bool{}
+		for guard := 0; len(spec.Txs) < n && guard < 2000; guard++ {
+			tx := g.GenTx(version)
+			k := kindOf(tx)
+			if k < 0 || (n >= 4 && len(have) < 4 && have[k]) {
+				continue
+			}
+			have[k] = true
+			rc := g.GenReceipt(tx)
+			spec.Txs, spec.Rcs = append(spec.Txs, tx), append(spec.Rcs, rc)
+			events += len(rc.Events)
+			sigs += len(tx.Signature())
+		}
+		if events > 0 && sigs > 0 {
+			break
+		}
+	}
+	return spec
+}
+
 type syncListener struct {
-	rec   *recorder
-	churn *churner
+	rec    *recorder
+	churn  *churner
+	status *statusTracker
 }
 
 func (l *syncListener) OnSyncStepDone(op string, n uint64, took time.Duration) {
 	l.rec.active("listener callback OnSyncStepDone(" + op + ")")
 	if op != junosync.OpStore {
+		if op == junosync.OpReorgCheckFast || op == junosync.OpReorgCheckRemote || op == junosync.OpReorgCheckLocal {
+			// which exit of isReverting was taken (coverage evidence only)
+			l.rec.mu.Lock()
+			if l.rec.ops == nil {
+				l.rec.ops = map[string]int{}
+			}
+			l.rec.ops[op]++
+			l.rec.mu.Unlock()
+		}
 		return
+	}
+	if l.status != nil {
+		// after the starting header was set, before highestBlockHeader / catchUpMode are updated
+		l.status.stored(n)
 	}
 	// Called by storeTask after Store succeeded and before the feed sends of this block.
 	r := l.rec
@@ -261,7 +333,11 @@ func runScenario(sc Scenario) (out *outcome) {
 
 	src := &source{rec: rec, chains: chains, trig: nil, faults: sc.Faults, seed: sc.Seed ^ 0xC06,
 		epoch: sc.StartEpoch, asked: map[string]int{}, faulted: map[string]int{}, hits: map[string]int{}, servedHeights: map[uint64]bool{},
+		nextKind: map[uint64]int{}, lastKind: map[uint64]int{}, pairHash: map[uint64]*felt.Felt{}, done: make(chan struct{}),
 		notFound: 150 * time.Microsecond, net: net}
+	if sc.ViaFeeder {
+		src.byBlock = map[*core.Block]int{}
+	}
 	forging := sc.Faults.ForgePct > 0
 	for _, ru := range sc.Faults.Rules {
 		forging = forging || strings.HasPrefix(ru.Action, "forged")
@@ -295,6 +371,9 @@ func runScenario(sc Scenario) (out *outcome) {
 		}
 	}
 
+	stTrack := &statusTracker{rec: rec}
+	src.status = stTrack
+	out.status = stTrack
 	final := chains[len(chains)-1]
 	startHeartbeat()
 	churnHits := map[string]int{}
@@ -304,10 +383,10 @@ func runScenario(sc Scenario) (out *outcome) {
 		rec.mu.Lock()
 		rec.returned = false
 		rec.mu.Unlock()
-		lis := &syncListener{rec: rec}
+		lis := &syncListener{rec: rec, status: stTrack}
 		var ds junosync.DataSource = src
 		if sc.ViaFeeder {
-			ds = &feederDS{DataSource: junosync.NewFeederGatewayDataSource(bc, newSNAdapter(src)), rec: rec}
+			ds = &feederDS{DataSource: junosync.NewFeederGatewayDataSource(bc, newSNAdapter(src)), rec: rec, src: src, bc: bc}
 		}
 		var poll time.Duration
 		if sc.Poll {
@@ -346,6 +425,7 @@ func runScenario(sc Scenario) (out *outcome) {
 		}()
 
 		ctx, cancel := context.WithCancel(context.Background())
+		stTrack.begin(s, ctx)
 		runDone := make(chan string, 1)
 		go func() {
 			err, panicked, stack := lib.Try(func() error { return s.Run(ctx) })
@@ -429,6 +509,9 @@ func runScenario(sc Scenario) (out *outcome) {
 				}
 			}
 		}
+		if out.hang == "" {
+			stTrack.end()
+		}
 		// Run has returned: every send of this instance has been made; the readers must get them all
 		rec.mu.Lock()
 		wantN, wantG := rec.stores, rec.reorgsOwed
@@ -483,9 +566,12 @@ func runScenario(sc Scenario) (out *outcome) {
 		out.persisted[k] += v
 	}
 
+	close(src.done)
+	src.watchers.Wait()
 	src.mu.Lock()
 	out.hits = src.hits
 	out.selfErr = src.selfErr
+	out.handed = append([]handedOut{}, src.handed...)
 	if src.maxInflight > 1 {
 		out.hits["parallel-fetchers(catch-up mode)"]++
 	}
@@ -509,7 +595,11 @@ func runScenario(sc Scenario) (out *outcome) {
 					out.persisted["persisted:rejected-tampered"]++
 				}
 				// a self-consistent forged block passes verifierTask: this error is Store's
-				if m := e.Error(); strings.HasPrefix(h.fault, "forged:") && !h.valid &&
+				if m := e.Error(); h.fault == "forged:unsupported-version" && (strings.Contains(m, "unsupported block version") || func() bool { _, fine := realClass(e); return fine == "" }()) {
+					// (the error text of the version check, or — should it be reworded — any error that is
+					// none of the other recognised classes: number, parent and roots of this block are honest)
+					out.persisted["forged:unsupported-version-refused-by-Store"]++
+				} else if strings.HasPrefix(h.fault, "forged:") && !h.valid &&
 					(strings.Contains(m, "does not match the expected root") || strings.Contains(m, "commitment mismatch")) {
 					out.persisted["forged:refused-by-Store"]++
 					if h.fault == "forged:state-root(empty-diff)" {
@@ -527,6 +617,10 @@ func runScenario(sc Scenario) (out *outcome) {
 	out.finalChain = append([]headRec{}, rec.chain...)
 	out.plugin = append([]pluginCall{}, rec.plugin...)
 	out.afterReturn = rec.afterReturn
+	for k, v := range rec.ops {
+		out.persisted["isReverting:exit-"+k] += v
+	}
+	out.fetchCalls = append([]*fetchCall{}, rec.fetchCalls...)
 	out.dbFailed = wdb.failed
 	rec.mu.Unlock()
 	return out
@@ -587,22 +681,122 @@ func sameBlock(bc *blockchain.Blockchain, want *lib.Bundle) string {
 			return fmt.Sprintf("block %d receipt %d differs", n, i)
 		}
 	}
+	for i := range got.Transactions {
+		g, w := got.Transactions[i], want.Block.Transactions[i]
+		if !feltsEq(g.Signature(), w.Signature()) {
+			return fmt.Sprintf("block %d tx %d: signature differs", n, i)
+		}
+		if _, legacy := g.(*core.DeployTransaction); !legacy {
+			// the stored transaction's content still hashes to its recorded hash
+			if h, err := core.TransactionHash(g, bc.Network()); err != nil || !h.Equal(g.Hash()) {
+				return fmt.Sprintf("block %d tx %d: the stored transaction does not hash to its recorded hash (%v)", n, i, err)
+			}
+		}
+		gr, wr := got.Receipts[i], want.Block.Receipts[i]
+		if !gr.TransactionHash.Equal(wr.TransactionHash) || gr.FeeUnit != wr.FeeUnit || gr.Reverted != wr.Reverted || gr.RevertReason != wr.RevertReason ||
+			len(gr.L2ToL1Message) != len(wr.L2ToL1Message) {
+			return fmt.Sprintf("block %d receipt %d differs (tx hash / fee unit / revert status / messages)", n, i)
+		}
+		for k := range gr.Events {
+			ge, we := gr.Events[k], wr.Events[k]
+			if !ge.From.Equal(we.From) || !feltsEq(ge.Keys, we.Keys) || !feltsEq(ge.Data, we.Data) {
+				return fmt.Sprintf("block %d receipt %d event %d differs", n, i, k)
+			}
+		}
+		for k := range gr.L2ToL1Message {
+			if !gr.L2ToL1Message[k].From.Equal(wr.L2ToL1Message[k].From) || len(gr.L2ToL1Message[k].Payload) != len(wr.L2ToL1Message[k].Payload) {
+				return fmt.Sprintf("block %d receipt %d message %d differs", n, i, k)
+			}
+		}
+	}
 	su, err := bc.StateUpdateByNumber(n)
 	if err != nil {
 		return fmt.Sprintf("StateUpdateByNumber(%d): %v", n, err)
 	}
-	if !su.NewRoot.Equal(want.SU.NewRoot) || !su.BlockHash.Equal(want.SU.BlockHash) {
-		return fmt.Sprintf("state update of block %d: root/hash differ", n)
+	if !su.NewRoot.Equal(want.SU.NewRoot) || !su.BlockHash.Equal(want.SU.BlockHash) || !su.OldRoot.Equal(want.SU.OldRoot) {
+		return fmt.Sprintf("state update of block %d: roots/hash differ", n)
 	}
 	if got, want := diffSize(su.StateDiff), diffSize(want.SU.StateDiff); got != want {
 		return fmt.Sprintf("state diff of block %d has %d entries, want %d", n, got, want)
 	}
-	for a, kv := range want.SU.StateDiff.StorageDiffs {
+	if why := sameDiff(su.StateDiff, want.SU.StateDiff); why != "" {
+		return fmt.Sprintf("state diff of block %d: %s", n, why)
+	}
+	// the commitments Store was handed (computed by verifierTask for THIS block)
+	if _, wc, err := core.BlockHash(want.Block, want.SU.StateDiff, bc.Network(), nil, core.DeprecatedTrieBackend); err == nil && wc != nil {
+		gc, err := bc.BlockCommitmentsByNumber(n)
+		if err != nil {
+			return fmt.Sprintf("BlockCommitmentsByNumber(%d): %v", n, err)
+		}
+		if !fEq(gc.TransactionCommitment, wc.TransactionCommitment) || !fEq(gc.EventCommitment, wc.EventCommitment) ||
+			!fEq(gc.ReceiptCommitment, wc.ReceiptCommitment) || !fEq(gc.StateDiffCommitment, wc.StateDiffCommitment) ||
+			gc.StateDiffLength != wc.StateDiffLength {
+			return fmt.Sprintf("stored commitments of block %d are not the commitments of this block", n)
+		}
+	}
+	return ""
+}
+
+func fEq(a, b *felt.Felt) bool {
+	if a == nil || b == nil {
+		return (a == nil || a.IsZero()) && (b == nil || b.IsZero())
+	}
+	return a.Equal(b)
+}
+
+func feltsEq(a, b []felt.Felt) bool {
+	if len(a) != len(b) {
+		return false
+	}
+	for i := range a {
+		if !a[i].Equal(&b[i]) {
+			return false
+		}
+	}
+	return true
+}
+
+// sameDiff: g has every entry of w with the same value (sizes are compared by the caller).
+func sameDiff(g, w *core.StateDiff) string {
+	for a, kv := range w.StorageDiffs {
 		for k, v := range kv {
-			g := su.StateDiff.StorageDiffs[a][k]
-			if g == nil || !g.Equal(v) {
-				return fmt.Sprintf("state diff of block %d: storage %s/%s differs", n, a.String(), k.String())
+			if x := g.StorageDiffs[a][k]; x == nil || !x.Equal(v) {
+				return fmt.Sprintf("storage %s/%s differs", a.String(), k.String())
 			}
+		}
+	}
+	for a, v := range w.Nonces {
+		if x := g.Nonces[a]; x == nil || !x.Equal(v) {
+			return "nonce of " + a.String() + " differs"
+		}
+	}
+	for a, v := range w.DeployedContracts {
+		if x := g.DeployedContracts[a]; x == nil || !x.Equal(v) {
+			return "deployed contract " + a.String() + " differs"
+		}
+	}
+	for a, v := range w.ReplacedClasses {
+		if x := g.ReplacedClasses[a]; x == nil || !x.Equal(v) {
+			return "replaced class of " + a.String() + " differs"
+		}
+	}
+	for a, v := range w.DeclaredV1Classes {
+		if x := g.DeclaredV1Classes[a]; x == nil || !x.Equal(v) {
+			return "declared class " + a.String() + " differs"
+		}
+	}
+	for _, h := range w.DeclaredV0Classes {
+		found := false
+		for _, x := range g.DeclaredV0Classes {
+			found = found || x.Equal(h)
+		}
+		if !found {
+			return "declared cairo0 class " + h.String() + " missing"
+		}
+	}
+	for a, v := range w.MigratedClasses {
+		if x, ok := g.MigratedClasses[a]; !ok || x != v {
+			return "migrated class differs"
 		}
 	}
 	return ""
@@ -621,9 +815,27 @@ type hdrCanon struct {
 	Hash, Parent, Root, Seq        string
 	Number, Timestamp, TxCnt, EvCt uint64
 	Version                        string
+	Gas                            string
+	DAMode                         uint
 }
 
 func canonHeader(h *core.Header) hdrCanon {
 	return hdrCanon{h.Hash.String(), h.ParentHash.String(), h.GlobalStateRoot.String(), h.SequencerAddress.String(),
-		h.Number, h.Timestamp, h.TransactionCount, h.EventCount, h.ProtocolVersion}
+		h.Number, h.Timestamp, h.TransactionCount, h.EventCount, h.ProtocolVersion, gasCanon(h), uint(h.L1DAMode)}
+}
+
+func gasCanon(h *core.Header) string {
+	f := func(x *felt.Felt) string {
+		if x == nil {
+			return "0x0"
+		}
+		return x.String()
+	}
+	g := func(p *core.GasPrice) string {
+		if p == nil {
+			return "0x0/0x0"
+		}
+		return f(p.PriceInWei) + "/" + f(p.PriceInFri)
+	}
+	return f(h.L1GasPriceETH) + "," + f(h.L1GasPriceSTRK) + "," + g(h.L1DataGasPrice) + "," + g(h.L2GasPrice)
 }
